@@ -145,6 +145,9 @@ def _attr_value(P, key, attr, typ):
         return z3.Function(nm, s, z3.IntSort())(key.term)
     if typ[0] == 'bool':
         return z3.Function(nm, s, z3.BoolSort())(key.term)
+    if typ[0] == 'str':
+        from .values import Opaque
+        return Opaque('str')        # text of a string attribute: not modelled (equal to nothing that is modelled)
     raise Unsupported(f'key attribute {key.kname}.{attr} of type {typ}')
 
 
